@@ -215,7 +215,117 @@ func lockScan(path, recvType, fields, calls string) {
 	}
 }
 
+// chanScan: for every method of *<recvType>, the ordered channel and atomic operations: receives, sends, closes, selects
+// (with their cases), Load / Store on atomic fields, comparisons guarding them, pause points, returns
+type chanScanner struct {
+	recv   string
+	events []string
+}
+
+func (s *chanScanner) Visit(n ast.Node) ast.Visitor {
+	switch x := n.(type) {
+	case *ast.ReturnStmt:
+		for _, r := range x.Results {
+			ast.Walk(s, r)
+		}
+		s.events = append(s.events, "return")
+		return nil
+	case *ast.SendStmt:
+		ast.Walk(s, x.Value)
+		s.events = append(s.events, "send("+sel(x.Chan)+")")
+		return nil
+	case *ast.UnaryExpr:
+		if x.Op == token.ARROW {
+			s.events = append(s.events, "recv("+sel(x.X)+")")
+			return nil
+		}
+		if x.Op == token.NOT {
+			s.events = append(s.events, "!")
+		}
+	case *ast.SelectStmt:
+		s.events = append(s.events, "select{")
+		ast.Walk(s, x.Body)
+		s.events = append(s.events, "}")
+		return nil
+	case *ast.IfStmt:
+		if x.Init != nil {
+			ast.Walk(s, x.Init)
+		}
+		s.events = append(s.events, "if(")
+		ast.Walk(s, x.Cond)
+		s.events = append(s.events, ")")
+		ast.Walk(s, x.Body)
+		if x.Else != nil {
+			s.events = append(s.events, "else")
+			ast.Walk(s, x.Else)
+		}
+		return nil
+	case *ast.BinaryExpr:
+		ast.Walk(s, x.X)
+		s.events = append(s.events, x.Op.String())
+		ast.Walk(s, x.Y)
+		return nil
+	case *ast.Ident:
+		if x.Name == "offset" || x.Name == "nextOffset" || x.Name == "updated" || x.Name == "ok" {
+			s.events = append(s.events, x.Name)
+		}
+		return nil
+	case *ast.CallExpr:
+		name := sel(x.Fun)
+		switch {
+		case name == "close" && len(x.Args) == 1:
+			s.events = append(s.events, "close("+sel(x.Args[0])+")")
+			return nil
+		case name == "make":
+			s.events = append(s.events, "make")
+			return nil
+		case name == "vhook.Pause" && len(x.Args) == 1:
+			if b, ok := x.Args[0].(*ast.BasicLit); ok {
+				s.events = append(s.events, "@"+strings.Trim(b.Value, "\""))
+			}
+			return nil
+		case strings.HasPrefix(name, s.recv+".") && (strings.HasSuffix(name, ".Load") || strings.HasSuffix(name, ".Store")):
+			for _, a := range x.Args {
+				ast.Walk(s, a)
+			}
+			s.events = append(s.events, strings.TrimPrefix(name, s.recv+"."))
+			return nil
+		}
+	}
+	return s
+}
+
+func chanScan(path, recvType string) {
+	fset := token.NewFileSet()
+	f, err := parser.ParseFile(fset, path, nil, 0)
+	if err != nil {
+		fmt.Fprintln(os.Stderr, err)
+		os.Exit(2)
+	}
+	var out []string
+	for _, d := range f.Decls {
+		fd, ok := d.(*ast.FuncDecl)
+		if !ok || fd.Recv == nil || len(fd.Recv.List) != 1 || fd.Body == nil || len(fd.Recv.List[0].Names) != 1 {
+			continue
+		}
+		if sel(fd.Recv.List[0].Type) != recvType {
+			continue
+		}
+		s := &chanScanner{recv: fd.Recv.List[0].Names[0].Name}
+		ast.Walk(s, fd.Body)
+		out = append(out, fd.Name.Name+": "+strings.Join(s.events, " "))
+	}
+	sort.Strings(out)
+	for _, l := range out {
+		fmt.Println(l)
+	}
+}
+
 func main() {
+	if len(os.Args) > 3 && os.Args[1] == "chans" {
+		chanScan(os.Args[2], os.Args[3])
+		return
+	}
 	if len(os.Args) > 5 && os.Args[1] == "locks" {
 		lockScan(os.Args[2], os.Args[3], os.Args[4], os.Args[5])
 		return
